@@ -14,7 +14,7 @@ From Coq Require Import ZArith List Bool Lia.
 From Low Require Import Lib.Bits Lib.BitSeq Model.TailBitmap Spec.TailBitmapSpec Spec.TailBitmapInv
   Spec.TailBitmapObs Proofs.TailBitmapProofs Proofs.TailBitmapHist Proofs.TailBitmapChecker
   Proofs.TailBitmapSound Proofs.TailBitmapLiteral Proofs.TailBitmapWords Run.C15.
-From Low Require Import Lib.MachInt Model.TailBitmapI64 Proofs.TailBitmapI64Proofs.
+From Low Require Import Lib.MachInt Model.TailBitmapI64 Proofs.TailBitmapI64Proofs Proofs.TailBitmapI64Checker.
 From Low Require Model.BitmapOf.
 Import ListNotations.
 Open Scope Z_scope.
@@ -332,6 +332,13 @@ Theorem C15_int64_top_word_refuted :
     Get1_64 s (2^63 - 1) = None /\ Get64 s (2^63 - 1) = None.
 Proof. exact top_of_range_witness. Qed.
 Print Assumptions C15_int64_top_word_refuted.
+
+(** The checker accepts the int64 model on the domain of the protocol operation bitmap.TailBitmap/int64
+    (any int64 offset; Set indices below the last word of the range and less than 2^22 above Offset). *)
+Theorem C15_int64_checker_accepts_model : forall o ps l,
+  model_history64 o ps = OOk l -> check_history o ps l = true.
+Proof. exact model_history64_accepted. Qed.
+Print Assumptions C15_int64_checker_accepts_model.
 
 (** non-vacuity of the agreement: the second-to-last word of the int64 range, filled and compacted *)
 Example C15_int64_nonvacuous :
